@@ -322,6 +322,14 @@ macro_rules! gen_types {
                     dec_async: dec_async_t::<crate::gen_keep::corpus_keep_gen::corpus_keep::$name>,
                 });
             )*
+            // the runtime's hand-written Message
+            v.push(GenType {
+                name: "rt::ApplicationException",
+                schema: "ApplicationException",
+                keep: false,
+                dec_mem: crate::eval::gen_dec_mem::<pilota::thrift::ApplicationException>,
+                dec_async: dec_async_t::<pilota::thrift::ApplicationException>,
+            });
             v
         }
     };
